@@ -418,7 +418,13 @@ def run_both(cases, impl_exe, model_exes, timeout=180):
         by.setdefault(c[1], []).append(c)
     for comp, cs in by.items():
         if comp in model_exes:
-            model.update(run_sharded(model_exes[comp], [model_line(c) for c in cs], timeout))
+            res = run_sharded(model_exes[comp], [model_line(c) for c in cs], timeout)
+            # a model driver that was starved (loaded machine) is a machinery condition, not an answer:
+            # re-run unanswered cases one by one with a generous timeout before anybody compares them
+            slow = [c for c in cs if res.get(c[0], 'NOOUTPUT').split('\t')[0] in ('TIMEOUT', 'NOOUTPUT')]
+            for c in slow[:200]:
+                res.update(run_lines(model_exes[comp], [model_line(c)], timeout * 4))
+            model.update(res)
     return impl, model
 
 
